@@ -103,6 +103,10 @@ def cli_scenarios():
          [("write", "d3", "anchor", 700, 0), ("write", "d3", "p", 6000, 0), ("write", "d2", "q", 6000, 0)] + base + [("cmd", "rehash")] + adds,
          ("sync",), None),
         ("sync-file-changed", Config(levels=1, ndisks=2), base + adds, ("sync", "--test-run", "touch -d 2001-01-01 {root}/d1/N"), None),
+        # a FATAL error in the middle of the run (the file became a symbolic link after the scan: open fails with ELOOP and sync bails
+        # out at that stripe while readers and writers are busy further on)
+        ("sync-fatal-error", Config(levels=1, ndisks=2), base + adds,
+         ("sync", "--test-run", "rm {root}/d1/dir/M; ln -s /etc/hostname {root}/d1/dir/M"), None),
         ("sync-full", Config(levels=3, ndisks=2), base + adds + [("cmd", "sync")], ("sync", "-F"), None),
         ("scrub", Config(levels=2, ndisks=2), base + adds + [("cmd", "sync")], ("scrub", "-p", "full"), ("dmg", "d2", "B")),
         ("fix", Config(levels=2, ndisks=2), base + adds + [("cmd", "sync")], ("fix",), ("lose", "d1")),
@@ -129,7 +133,12 @@ def prepare(L, ops, inflight):
 
 def outcome(L, res):
     """what must not depend on scheduling / cache depth"""
-    tags = sorted(t for t in res.tags.lines if t[0] in (b"error", b"parity_error", b"fixed", b"parity_fixed", b"status", b"unrecoverable", b"summary")
+    keep = (b"error", b"parity_error", b"fixed", b"parity_fixed", b"status", b"unrecoverable", b"summary")
+    if any("ln -s" in str(a) for a in res.argv):
+        # a run that bails out at a fatal error: the readers working ahead may already have logged the same error for later stripes the
+        # main loop never reaches; which of those lines exist depends on the read-ahead and is not a result
+        keep = tuple(k for k in keep if k != b"error")
+    tags = sorted(t for t in res.tags.lines if t[0] in keep
                   and not (t[0] == b"summary" and len(t) > 1 and t[1].startswith(b"parity_block")))
     par_bytes = tuple(L.parity_stream(l) for l in range(L.cfg.levels))
     try:
